@@ -929,6 +929,32 @@ Section Final.
   Qed.
 End Final.
 
+(* A frame of another session (another link of the same run: sealing function [seal'], i.e. another key), taken
+   from any direction and any position of that link and put where the j-th honest frame of this link should be:
+   rejected like every other deviating frame.  The premise [ideal_aead open (dir_log seal ...)] is what makes the
+   other link "another session": only this link's two senders ever sealed under this link's key. *)
+Theorem final_foreign_session seal seal' open wf fin d sent_d sent_o frames_d frames_o d' sent' frames' :
+  honest_run seal d sent_d frames_d -> honest_run seal (other d) sent_o frames_o ->
+  ideal_aead open (dir_log seal d sent_d sent_o) ->
+  Forall (fun m => wf m = true) sent_d ->
+  honest_run seal' d' sent' frames' ->
+  forall j j' f' rest,
+    (j <= length sent_d)%nat -> existsb fin (firstn j sent_d) = false ->
+    nth_error frames' j' = Some f' -> nth_error frames_d j <> Some f' ->
+    let wire := concat (firstn j frames_d) ++ f' ++ rest in
+    snd (recv_bytes open wf fin true d (r_init d) wire) = firstn j sent_d /\
+    is_failed (fst (recv_bytes open wf fin true d (r_init d) wire)) = true.
+Proof.
+  intros Hd Ho Ha Hwf [c' Hs'] j j' f' rest Hj Hnf Hn Hne.
+  apply send_all_ok_inv in Hs' as (A' & B' & _).
+  rewrite B', nth_error_map in Hn.
+  destruct (nth_error (seal_cts seal' true (lsb d') sent') j') as [c|] eqn:Ec; cbn [option_map] in Hn; [|discriminate].
+  inversion Hn; subst f'.
+  destruct (seal_cts_nth _ _ _ _ _ Ec) as (m & Hm & Hc).
+  destruct (sender_ok_nth seal' _ _ _ _ A' Hm) as [_ Hb]. rewrite <- Hc in Hb.
+  exact (final_deviating seal open wf fin d sent_d sent_o frames_d frames_o Hd Ho Ha Hwf j c rest Hj Hnf Hb Hne).
+Qed.
+
 Theorem final_no_reuse seal sent0 sent1 frames0 frames1 :
   honest_run seal BossToDoer sent0 frames0 -> honest_run seal DoerToBoss sent1 frames1 ->
   NoDup (map (fun e => fst (fst e)) (dir_log seal BossToDoer sent0 sent1)).
